@@ -203,7 +203,17 @@ fn short(s: &str) -> String {
 impl Domain for StoreDomain {
     fn op(&mut self, t: &[&str]) -> String {
         if t[0] == "reopen" {
-            self.backend = None; // close
+            // close: for LMDB wait until the environment is really closed (its storage thread holds a handle until its queue
+            // closes); opening the same environment again while the old handle is still closing is not allowed by LMDB and
+            // could show a stale snapshot - a restart is a new process in reality
+            let closing = match self.backend.as_ref() {
+                Some(Backend::Lmdb(s)) => Some(s.handle().env().clone().prepare_for_closing()),
+                _ => None,
+            };
+            self.backend = None;
+            if let Some(ev) = closing {
+                ev.wait();
+            }
             if self.kind == "mem" {
                 return "ok".into(); // nothing persistent: the model treats `reopen` of mem as not generated
             }
